@@ -77,7 +77,7 @@ Step(e) ==
      /\ removed' = removed \cup (Ids(All) \ kept)
      /\ nreq' = nreq + 1 /\ acked' = acked \cup {nreq + 1} /\ before' = (nreq + 1 :> Ids(emitted)) @@ before
      /\ viol' = viol \cup (IF \A i \in DOMAIN All : (All[i].job > 0 /\ All[i].job \in liveJobs) => All[i].id \in kept
-                           THEN {} ELSE {V("C12_PruneKeepsLiveRecords", e)})
+                           THEN {} ELSE {V("C12_PruneKeepsLiveRecords", e), V("C10_AckedIsDurable", e)})
                      \cup (IF ok THEN {} ELSE {V("AUX_Conf_JournalThread:P", e)})
      /\ lost' = ~ok
      /\ UNCHANGED <<emitted, tmp, pc, cur, replies, crashes, alive, run>>
